@@ -478,6 +478,18 @@ func tryReplay(o *runOpts, fr *FuncResult, ob *Oblig, vals map[string]string) Re
 			}
 		}
 	}
+	if !wantPanic {
+		// a replay compares returned values; a clause over the ghost call history, or a function
+		// whose model predicts no comparable result, has nothing a replay could confirm
+		for _, g := range []string{"ncalls(", "lastarg(", "lastret(", "sinkarg(", "fileByte(", "fileSize("} {
+			if strings.Contains(ob.Clause, g) {
+				return ReplayResult{Note: "clause is over ghost state (" + strings.TrimSuffix(g, "(") + "): not observable by calling the function"}
+			}
+		}
+		if len(compare) == 0 {
+			return ReplayResult{Note: "the model predicts no comparable result value"}
+		}
+	}
 	// the call expression
 	var call string
 	var rs []string
